@@ -483,7 +483,13 @@ func initDesignateNotaryRoleAsLeaderTick(ctx context.Context, prm enableNotaryPr
 				make([]byte, extraLen)...)
 			buf := tx.Scripts[1].InvocationScript[initialLen:]
 
-			for _, sig := range mCommitteeIndexToSignature {
+			// multi-signature witness requires signatures to be ordered the
+			// same way as the (sorted) committee keys
+			for i := range prm.committee {
+				sig, ok := mCommitteeIndexToSignature[i]
+				if !ok {
+					continue
+				}
 				buf[0] = byte(opcode.PUSHDATA1)
 				buf[1] = byte(len(sig))
 				buf = buf[2:]
